@@ -110,6 +110,13 @@ fn check(acc: &mut Acc, p: CP, to709: bool, base: u64, px: &[[f32; 3]]) {
     acc.worst(&format!("err/tol {p:?} {}", dir(to709)), worst, || mk(wp));
 }
 
+fn pxs_json(it: &[[f32; 3]]) -> Value {
+    json!(it.iter().map(|p| px3j(*p)).collect::<Vec<_>>())
+}
+fn pxs_from(v: &Value) -> Vec<[f32; 3]> {
+    v.as_array().unwrap().iter().map(px3_from).collect()
+}
+
 pub fn run(tier: Tier) -> Report {
     let mut rep = Report::new("C06");
     let steps: u64 = tier.pick(if light() { 25 } else { 50 }, 500);
@@ -142,6 +149,7 @@ pub fn run(tier: Tier) -> Report {
             let acc = par_chunks_varied(total, 1 << 14, |acc, lo, hi| {
                 let px: Vec<[f32; 3]> = (lo..hi).map(|i| [g[(i / (gl * gl)) as usize], g[((i / gl) % gl) as usize], g[(i % gl) as usize]]).collect();
                 check(acc, p, to709, base + lo, &px);
+                crate::img::refine_violations(acc, base + lo, &px, 1, &|a, it| check(a, p, to709, 0, it), &pxs_json);
                 if lo == 0 && p == CP::P3DCI {
                     acc.sample(json!({"primaries":"P3DCI","dir":dir(to709),"rgb":px3s(px[px.len()/2])}));
                 }
@@ -164,7 +172,8 @@ pub fn replay(case: &Value) -> (bool, String) {
     let to709 = case["to709"].as_bool().unwrap();
     let v = px3_from(&case["rgb"]);
     let mut acc = Acc::default();
-    check(&mut acc, p, to709, 0, &[v]);
+    let (items, shape) = crate::img::replay_items(case, vec![v], &pxs_from);
+    crate::img::with_shape(shape, || check(&mut acc, p, to709, 0, &items));
     if v == [1.0, 1.0, 1.0] {
         if let Ok(o) = convert(p, to709, &[v]) {
             let e = (0..3).map(|k| (o[0][k] as f64 - 1.0).abs()).fold(0.0, f64::max);
